@@ -31,6 +31,7 @@ struct wr { int fd; long st[64]; int nst; long n; };
 static void *writer(void *c){ struct wr *w=c; long pos=0; for(int i=0;i<w->nst;i++){ usleep(1500);
     unsigned char b[4096]; long k=w->st[i]; while(k>0){ long m=k>4096?4096:k; for(long j=0;j<m;j++) b[j]=(unsigned char)((pos+j)%251); if(write(w->fd,b,(size_t)m)!=m) break; pos+=m; k-=m; } }
   usleep(1500); close(w->fd); return NULL; }
+void _dispatch_iocntl(uint32_t param, uint64_t value);
 int main(void){
   static char line[1<<16];
   dispatch_queue_t q = dispatch_queue_create("h", NULL);
@@ -40,6 +41,7 @@ int main(void){
     char *t = strtok(line," \n"); if(!t||strcmp(t,"I")){ puts("bad-op"); continue; }
     long length = atol(strtok(NULL," \n")), low = atol(strtok(NULL," \n")), high = atol(strtok(NULL," \n")); long n = atol(strtok(NULL," \n"));
     char *stages = strtok(NULL," \n");
+    char *cp = strtok(NULL," \n"); _dispatch_iocntl(1 /* DISPATCH_IOCNTL_CHUNK_PAGES */, cp ? (uint64_t)atol(cp) : 256);
     struct wr w; memset(&w,0,sizeof w); w.n=n; { char *sv=NULL; for(char *s=strtok_r(stages,",",&sv); s && w.nst<64; s=strtok_r(NULL,",",&sv)) w.st[w.nst++]=atol(s); }
     ncaps = 0; kread = 0; rlen = 0; clen = 0; rlog[0]=0; clog[0]=0;
     if(bar){ char *sv=NULL; for(char *s=strtok_r(bar," \n",&sv); s && ncaps<512; s=strtok_r(NULL," \n",&sv)) caps[ncaps++]=atol(s); }
